@@ -290,7 +290,7 @@ pub fn check(prop: &str, tier: u8, seed: u64) -> i32 {
                     r.v("memcheck_error", "", format!("{} valgrind memcheck reports; first: {} ; logs in {}", rep.errors, rep.first_error, rep.log_dir));
                     recs.push(r);
                 }
-                lanes.push(json!({"tool": "valgrind memcheck (leak check off)", "family": fam, "programs_requested": rep.programs, "programs_completed_under_valgrind": rep.completed, "valgrind_processes": rep.processes, "processes_died": rep.died, "error_reports": rep.errors, "wall_s": rep.wall_s, "violations_seen_in_sample": rep.violations_in_sample}));
+                lanes.push(json!({"tool": "valgrind memcheck (leak check off)", "family": fam, "programs_requested": rep.programs, "programs_completed_under_valgrind": rep.completed, "valgrind_processes": rep.processes, "processes_died": rep.died, "processes_stopped_at_the_lane_budget": rep.stopped_at_budget, "error_reports": rep.errors, "wall_s": rep.wall_s, "violations_seen_in_sample": rep.violations_in_sample}));
             }
         }
         sanitizer = Value::Array(lanes);
